@@ -89,6 +89,74 @@ def icLook (C : NNet) (tl : PinIdx) (c1 : String) (p1 : Option String) (c2 : Str
     | _, _ => .raise
   | _, _ => .raise
 
+/-! ### the exits of the INTERCONNECT look-up, by kind (audit finding 7, completeness)
+
+`icLookX` is `icLook` with the two kinds of warning kept apart (`warnPin`: one of the two `No line to annotate pin …`;
+`warnNoBranch`: `No branchfork to annotate interconnect delay …`), written as the three stages of the code: resolve both ends
+(`circuit.cells[..]`, `tlib.pin_index`), read the two pins (`icPins`), decide between the forks (`icFork`).
+`icLookX_toLook` (Proofs/SdfCirc.lean): forgetting the kind of warning gives `icLook` — for every dump. -/
+inductive IcExit
+  | raise
+  | warnPin
+  | warnNoBranch
+  | line (l : Nat)
+deriving DecidableEq, Repr, Inhabited
+
+def IcExit.toLook : IcExit → Look
+  | .raise => .raise
+  | .warnPin => .skip
+  | .warnNoBranch => .skip
+  | .line l => .line l
+
+/-- from `f1, f2 = c1.outs[p1].reader, c2.ins[p2].driver` to the end of the loop body; `lo`, `li` = the two lines -/
+def icFork (C : NNet) (lo li : Nat) : IcExit :=
+  let f1 := (C.net.line lo).reader
+  let f2 := (C.net.line li).driver
+  if !((C.net.node f1).isFork && (C.net.node f2).isFork) then .raise else
+  if f1 != f2 then
+    match forkIn (C.net.node f2) with
+    | some l =>
+      if (C.net.node f2).outs.length == 1 && (C.net.node f1).outPin (C.net.line l).dpin == some l then .line l
+      else .raise
+    | none => .raise
+  else if (C.net.node f2).outs.length == 1 then
+    match forkIn (C.net.node f2) with
+    | some l => .line l
+    | none => .raise
+  else .warnNoBranch
+
+/-- the two `warn` exits on open pins, then `icFork` -/
+def icPins (C : NNet) (i1 q1 i2 q2 : Nat) : IcExit :=
+  match (C.net.node i1).outPin q1 with
+  | none => .warnPin
+  | some lo =>
+    match (C.net.node i2).inPin q2 with
+    | none => .warnPin
+    | some li => icFork C lo li
+
+def icLookX (C : NNet) (tl : PinIdx) (c1 : String) (p1 : Option String) (c2 : String) (p2 : Option String) : IcExit :=
+  match cellOf C c1, cellOf C c2 with
+  | some i1, some i2 =>
+    match endPin tl (C.net.node i1).kind p1, endPin tl (C.net.node i2).kind p2 with
+    | some q1, some q2 => icPins C i1 q1 i2 q2
+    | _, _ => .raise
+  | _, _ => .raise
+
+def icLookXE (C : NNet) (tl : PinIdx) (e : Entry) : IcExit :=
+  let n1 := splitSlash e.a
+  let n2 := splitSlash e.b
+  icLookX C tl (stripBackslash n1.1) n1.2 (stripBackslash n2.1) n2.2
+
+/-- **structural hypothesis on the dump** (decidable; evaluated on every circuit the harness parses, tag `c14-hyp:icStruct:*`):
+the structure `verilog.parse` builds around cells — every fork has exactly one input pin and it is connected; every line that
+leaves a pin of a cell (gate, port, state element) enters a fork and every line that enters a pin of a cell leaves a fork. -/
+def icStructOKB (C : NNet) : Bool :=
+  (List.range C.net.nodes.size).all fun i =>
+    let n := C.net.node i
+    if n.isFork then n.ins.length == 1 && (n.ins.getD 0 none).isSome
+    else n.outs.all (fun o => match o with | some l => (C.net.node (C.net.line l).reader).isFork | none => true)
+      && n.ins.all (fun o => match o with | some l => (C.net.node (C.net.line l).driver).isFork | none => true)
+
 /-- the tables of `Model/Sdf.lean` as the real code computes them -/
 def pinLineOf (C : NNet) (tl : PinIdx) : PinTable := fun n p => (pinLook C tl n p).toOpt
 def icLineOf (C : NNet) (tl : PinIdx) : IcTable := fun c1 p1 c2 p2 => (icLook C tl c1 p1 c2 p2).toOpt
